@@ -28,3 +28,12 @@ theories/L2/Jobs.vos theories/L2/Jobs.vok theories/L2/Jobs.required_vos: theorie
 theories/L2/Wake.vo theories/L2/Wake.glob theories/L2/Wake.v.beautified theories/L2/Wake.required_vo: theories/L2/Wake.v theories/L2/Model.vo theories/L2/Base.vo theories/L2/Own.vo theories/L2/Jobs.vo
 theories/L2/Wake.vio: theories/L2/Wake.v theories/L2/Model.vio theories/L2/Base.vio theories/L2/Own.vio theories/L2/Jobs.vio
 theories/L2/Wake.vos theories/L2/Wake.vok theories/L2/Wake.required_vos: theories/L2/Wake.v theories/L2/Model.vos theories/L2/Base.vos theories/L2/Own.vos theories/L2/Jobs.vos
+theories/L2/WakeInv.vo theories/L2/WakeInv.glob theories/L2/WakeInv.v.beautified theories/L2/WakeInv.required_vo: theories/L2/WakeInv.v theories/L2/Model.vo theories/L2/Base.vo theories/L2/Own.vo theories/L2/Jobs.vo theories/L2/Wake.vo
+theories/L2/WakeInv.vio: theories/L2/WakeInv.v theories/L2/Model.vio theories/L2/Base.vio theories/L2/Own.vio theories/L2/Jobs.vio theories/L2/Wake.vio
+theories/L2/WakeInv.vos theories/L2/WakeInv.vok theories/L2/WakeInv.required_vos: theories/L2/WakeInv.v theories/L2/Model.vos theories/L2/Base.vos theories/L2/Own.vos theories/L2/Jobs.vos theories/L2/Wake.vos
+theories/L2/InstWake.vo theories/L2/InstWake.glob theories/L2/InstWake.v.beautified theories/L2/InstWake.required_vo: theories/L2/InstWake.v theories/L2/Model.vo theories/L2/Base.vo theories/L2/Own.vo theories/L2/Jobs.vo theories/L2/Wake.vo theories/L2/WakeInv.vo theories/L2/Inst.vo gen/Tables.vo
+theories/L2/InstWake.vio: theories/L2/InstWake.v theories/L2/Model.vio theories/L2/Base.vio theories/L2/Own.vio theories/L2/Jobs.vio theories/L2/Wake.vio theories/L2/WakeInv.vio theories/L2/Inst.vio gen/Tables.vio
+theories/L2/InstWake.vos theories/L2/InstWake.vok theories/L2/InstWake.required_vos: theories/L2/InstWake.v theories/L2/Model.vos theories/L2/Base.vos theories/L2/Own.vos theories/L2/Jobs.vos theories/L2/Wake.vos theories/L2/WakeInv.vos theories/L2/Inst.vos gen/Tables.vos
+theories/L2/WakeLem.vo theories/L2/WakeLem.glob theories/L2/WakeLem.v.beautified theories/L2/WakeLem.required_vo: theories/L2/WakeLem.v theories/L2/Model.vo theories/L2/Base.vo theories/L2/Own.vo theories/L2/Jobs.vo theories/L2/Wake.vo theories/L2/WakeInv.vo
+theories/L2/WakeLem.vio: theories/L2/WakeLem.v theories/L2/Model.vio theories/L2/Base.vio theories/L2/Own.vio theories/L2/Jobs.vio theories/L2/Wake.vio theories/L2/WakeInv.vio
+theories/L2/WakeLem.vos theories/L2/WakeLem.vok theories/L2/WakeLem.required_vos: theories/L2/WakeLem.v theories/L2/Model.vos theories/L2/Base.vos theories/L2/Own.vos theories/L2/Jobs.vos theories/L2/Wake.vos theories/L2/WakeInv.vos
